@@ -15,7 +15,10 @@ Monitor : harness/poolcommon.py (written from the property statement): at most o
           and every later result() (any time-out) answers at once with that outcome.
 Inputs  : tasks presented as named callables, bare callable instances and functools.partial objects (no __name__),
           returning truthy / falsy-but-not-None / None objects or raising exceptions with empty args / OSError / falsy exception
-          objects, called with tuples, with nothing or with falsy arguments (poolcommon.gen_variant).
+          objects / HOSTILE exception objects (harness/hostile.py: `__str__`, `__repr__`, `__format__`, `args`, `__bool__`,
+          `__eq__`, `__hash__` raising, `__str__` returning None, 1 MiB / format-directive / lone-surrogate messages, classes
+          with required constructor arguments; in random programs and - every kind, in every run - with a follower queued
+          behind the failing task on a single worker: poolcommon.hostile_sweep; extracted fact poolRunLogsExcOpaque), called with tuples, with nothing or with falsy arguments (poolcommon.gen_variant).
           Observations done() / result(0) / result(0.0) / result(1.0) / result() and done-then-result, in random programs
           and - in every run - placed before and after every operation of the worker that completes a returning / raising
           task (poolcommon.observe_sweep), the point between the future's flag and the return of Event.set() included
@@ -37,6 +40,7 @@ REQUIRED_THEOREMS = [
     "C09_queued_has_server", "C09_eventually_once", "C09_eventually_begins",
     "C09_gen_poolUnlockedAccesses", "C09_gen_poolPendingStores", "C09_gen_poolGrowthRule", "C09_gen_poolRetireRule",
     "C09_gen_poolRunHandlerSafe", "C09_gen_poolStartRollback", "C09_gen_poolFuturePublishesLast", "C09_gen_poolQueuePuts", "C09_gen_poolTaskArgsForwarded",
+    "C09_gen_poolRunLogsExcOpaque",
 ]
 
 MIX = [(3, "L1", None), (2, "L2", None), (2, "G", None), (1, "W", None), (1, "GR", None), (1, "L1", (1, 1)), (1, "L2", (1, 0)),
